@@ -204,7 +204,9 @@ class Gen:
                 d["access"] = ch.weighted([(6, None), (1, "public"), (1, "private")])
         # entities
         for nm in names:
-            e = {"name": nm, "dim": None, "init": None, "points": False, "doc": self.doc(("variable", nm))}
+            # (one doc comment per declaration statement: it documents every entity the statement names)
+            e = {"name": nm, "dim": None, "init": None, "points": False,
+                 "doc": self.doc(("variable", nm)) if nm == names[0] else None}
             can_init = where != "arg" and not pure
             alloc = "allocatable" in d["attrs"]
             ptr = "pointer" in d["attrs"]
